@@ -5,6 +5,41 @@ import sys
 from . import runner, props
 
 
+def crosshair_kernels(pid, files):
+    """Engine B cross-check; only a counterexample that replays on the real function is reported"""
+    import json
+    import hashlib
+    from . import xhair
+    r = xhair.run_kernels(files, per_condition_timeout=30)
+    rc = 0
+    reported = []
+    for ce in r["counterexamples"]:
+        ok, what = xhair.replay(ce)
+        if ok:
+            h = hashlib.sha1(ce["line"].encode()).hexdigest()[:10]
+            path = os.path.join(runner.VERIF, "replays", "%s-xh-%s.json" % (pid, h))
+            with open(path, "w") as f:
+                json.dump({"property": pid, "kind": "crosshair", "counterexample": ce, "observed": what}, f, indent=1)
+            print("VIOLATION property=%s replay=%s" % (pid, path))
+            print("  crosshair kernel %s: %s" % (ce["function"], what))
+            reported.append(what)
+            rc = 1
+        else:
+            print("CROSSHAIR counterexample did not replay on the real function (ignored): %s" % ce["line"])
+    print("crosshair kernels: %d confirmed, %d not confirmed (inconclusive), %d counterexamples, %.0fs" % (r["confirmed"], r["not_confirmed"], len(r["counterexamples"]), r["wall_s"]))
+    evp = os.path.join(runner.VERIF, "evidence", "%s.json" % pid)
+    try:
+        ev = json.load(open(evp))
+        ev["coverage"]["crosshair_cross_check"] = {"kernels": files, "confirmed": r["confirmed"], "not_confirmed_inconclusive": r["not_confirmed"],
+                                                    "counterexamples_replayed": reported, "wall_s": r["wall_s"]}
+        if rc == 1:
+            ev["violations"] = ev.get("violations", 0) + len(reported)
+        json.dump(ev, open(evp, "w"), indent=1, default=str)
+    except Exception:
+        pass
+    return rc
+
+
 def main(argv):
     if not argv:
         print(__doc__)
@@ -21,8 +56,11 @@ def main(argv):
         for r in rows:
             if P.get("exc_is_violation"):
                 r["exc_is_violation"] = True
-        return runner.run_rows(pid, rows, tier, seed, P["mons"], vacuity=P.get("vacuity", ()),
-                               extra_assumptions=P.get("assumptions", ()), functions=P.get("functions"))
+        rc = runner.run_rows(pid, rows, tier, seed, P["mons"], vacuity=P.get("vacuity", ()),
+                             extra_assumptions=P.get("assumptions", ()), functions=P.get("functions"))
+        if P.get("kernels") and tier == "thorough":
+            rc = max(rc, crosshair_kernels(pid, P["kernels"])) if rc != 1 else 1
+        return rc
     if cmd == "replay":
         return runner.replay_file(argv[1])
     if cmd == "selftest":
